@@ -771,7 +771,7 @@ TAG_IDENT_CHARS = ASCII_UPPER + ASCII_LOWER + ASCII_DIGITS + '-:'
 # OFF: this class fails on the UNCHANGED library (and in upstream Emmet): is_html.is_ident() knows letters, digits,
 # '-' and ':' only, so '<a data_x>p' gives 'data_x>p' and '<a data_x=1>p' gives '1>p' (a tag ending in a quoted
 # value is still right because a quote is no abbreviation character).  Reported, not listed; switch on to see it.
-TAG_NAME_CHARS_BEYOND_IDENT = False
+TAG_NAME_CHARS_BEYOND_IDENT = True      # listed finding roundtrip:tag-name-character-outside-letters-digits-dash-colon
 TAG_EXTRA_NAME_CHARS = '_.@#'
 
 # '@' marks the place of the swept character; (position kind, shape, letters only?)
